@@ -109,24 +109,25 @@ CHECKS = {
 
 # sentences appended to the level text: regimes added after seeding round 4 (see DESIGN.md 10.2)
 EXTRA = {
- "C01": "Two shapes are repeated with all weights multiplied by 2^70, 2^-70, 1e15 and 2^600 through both entry points of every variant (J_P does not depend on the scale).",
- "C02": "One 12-item set is run at signature lengths 65535, 65536 and 65537 through every order and entry point.",
- "C03": "J = 1: for m in {4,8,12,16,32} every pair (x,y) of a rounding witness x (an item whose single-item f32 value is an exact integer, found by scanning 2^20 (2^22) items through the real code) and y from a 64-item block is streamed in 7 repeating / reordering patterns; all positions must equal those of [x,y]. This exposed and now guards the repaired order dependence of the f32 sketcher.",
- "C04": "Sketch size 65537 (thorough: 65535, 65536 too) is run with all streams of length <= 2 (3) over two items and the burst, and the rounding-witness streams of C03 are run as order / repetition cases.",
- "C05": "The join is also checked at sketch size 65537; refusal is checked on 116 parameter pairs x 2 register types from 32 ulp / 1e-12 relative upwards, and the receiver of a refused merge is compared with a twin over the rest of its stream.",
- "C06": "The estimate is also compared across 5 ways of entering the items (item-wise, one slice, two slices, mixed) for all ordered selections of <= 3 of 8 items whose hashes are boundary values (0, 1, 2^64-1, 2^63, 2^32 ...) through the no-op hasher and Fnv.",
- "C07": "36 collision configurations build the first sketch through a history: a merge with an incompatible sketcher attempted and refused halfway through the stream, reuse after reinit, merge of two half-stream sketchers.",
- "C08": "144 structured-labelling configurations: no-op hasher, the two sets' own items related by one of 8 bit transformations (swap halves, rotate, reverse, complement ...), all three views against J.",
- "C09": "sketch_slice = item-wise + end_sketch and the finishing-edge invariants are also checked on one stream at each of the sizes 255, 256, 257, 1000, 4097, 50000, 65535, 65536, 65537, 1000003, 3*2^20 (thorough: 2^24+1, 5*2^22).",
+ "C01": "Two shapes are repeated with all weights multiplied by 2^70, 2^-70, 1e15 and 2^600 through both entry points of every variant (J_P does not depend on the scale). Four shapes are also fed in two calls (lighter half first) for every variant.",
+ "C02": "One 12-item set is run at signature lengths 65535, 65536 and 65537 through every order and entry point. One 70000-item set at m=16 and one set of 2^20+12 items (12 heavy ones last / first) are run through all entry point / order combinations.",
+ "C03": "J = 1: for m in {4,8,12,16,32} every pair (x,y) of a rounding witness x (an item whose single-item f32 value is an exact integer, found by scanning 2^20 (2^22) items through the real code) and y from a 64-item block is streamed in 7 repeating / reordering patterns; all positions must equal those of [x,y]. This exposed and now guards the repaired order dependence of the f32 sketcher. The scan also runs at m=3 over 2^24 (2^26) items (integer parts must be a permutation), and groups of items whose level-0 entries collide on a 24-bit value are searched among 2^17 items; on all witness pairs the sketch of {x,y} must be the position-wise minimum of the two single-item sketches.",
+ "C04": "Sketch size 65537 (thorough: 65535, 65536 too) is run with all streams of length <= 2 (3) over two items and the burst, and the rounding-witness streams of C03 are run as order / repetition cases. The stream 1..=70000 is presented in five ways to the 18 kinds of size 64.",
+ "C05": "The join is also checked at sketch size 65537; refusal is checked on 116 parameter pairs x 2 register types from 32 ulp / 1e-12 relative upwards, and the receiver of a refused merge is compared with a twin over the rest of its stream. The witness-pair streams of C03 are run for the join property.",
+ "C06": "The estimate is also compared across 5 ways of entering the items (item-wise, one slice, two slices, mixed) for all ordered selections of <= 3 of 8 items whose hashes are boundary values (0, 1, 2^64-1, 2^63, 2^32 ...) through the no-op hasher and Fnv. The monotone streams run on 10 parameter sets, 5 with extreme rates (2^62 .. 1e-4, registers saturating at q+1 or staying at 0), comparing the estimate of the sketcher with the parallel estimate at every step.",
+ "C07": "36 collision configurations build the first sketch through a history: a merge with an incompatible sketcher attempted and refused halfway through the stream, reuse after reinit, merge of two half-stream sketchers. Every run is cross-checked against the estimator of the crate (exact agreement), 4 configurations use 70001 / 140001 registers, and totality is repeated for m <= 48 with a trace-level logger installed.",
+ "C08": "144 structured-labelling configurations: no-op hasher, the two sets' own items related by one of 8 bit transformations (swap halves, rotate, reverse, complement ...), all three views against J. Every item of a block of 2^25 (2^27) populates one bin of a fresh f32 sketcher; items whose draw is exactly 0.0 are streamed alone and with 40 others: sets sharing them collide at their bin.",
+ "C09": "sketch_slice = item-wise + end_sketch and the finishing-edge invariants are also checked on one stream at each of the sizes 255, 256, 257, 1000, 4097, 50000, 65535, 65536, 65537, 1000003, 3*2^20 (thorough: 2^24+1, 5*2^22). Single-item scan: every identifier of a block of 2^25 (2^27; f64: 2^20 (2^22)) populates exactly one bin with (a value in [0,1), its hash); zero-draw witnesses own their bin in longer streams.",
  "C10": "12 pairs of sequences with runs of 2^8-1..2^8+1 and 2^16-1..2^16+1 occurrences of one element are run at l=1 against a closed form in the element counts (cross-checked against the ranking enumeration on all count vectors <= 3).",
- "C11": "A third hasher configuration gives the symbols 64-bit hashes that agree pairwise on their low halves, high halves or xor-fold.",
- "C12": "The slice entry point of the f32 densified sketchers is run 38 times under rayon pools of 1, 2, 4 and 16 workers on a 3e5-item slice whose minimum is a tie between two items (schedule sampling).",
- "C13": "Per sketcher type, one instance lives through c reset cycles for every c in 254..258 and 65534..65538 before the comparison with a fresh instance; fixed histories are also run at size 65537.",
+ "C11": "A third hasher configuration gives the symbols 64-bit hashes that agree pairwise on their low halves, high halves or xor-fold. A fourth configuration uses unequal items that hash alike (two tags per element).",
+ "C12": "The slice entry point of the f32 densified sketchers is run 38 times under rayon pools of 1, 2, 4 and 16 workers on a 3e5-item slice whose minimum is a tie between two items (schedule sampling). Every kind and the large HashMap sets are run once more with a trace-level logger installed: the log level is part of the environment.",
+ "C13": "Per sketcher type, one instance lives through c reset cycles for every c in 254..258 and 65534..65538 before the comparison with a fresh instance; fixed histories are also run at size 65537. Interrupted calls: for 7 sketcher types a call is interrupted by a panic of the item hasher at each of 4 positions of its stream (caught), then reset (nothing for ProbOrdMinHash2) and a post-input, compared with a fresh instance.",
  "C14": "The slice-taking functions are also run on every pair of sub-slices of one buffer (aliased arguments), and all functions on sketches of 65535, 65536, 65537 and 2^24+3 positions.",
- "C15": "Beyond the closed spaces, every m in 9..300, 2^k-1..2^k+1 (k=9..17), 1000, 5000, 50000, 100003 (thorough: ~2^20, 3000001) gets one structured six-phase history with every step checked against an ordered multiset of slot minima, and m in {1,2,3,5,8} gets 70000 (updates, reset) cycles.",
- "C17": "Long runs under one patterned script: >= 70000 draws without reset and >= 66000 (draws, reset, m draws compared with a fresh instance) cycles for m in {1,2,3,5,255,256,257}; two full blocks for m in {65535,65536,65537,100003}.",
+ "C15": "Beyond the closed spaces, every m in 9..300, 2^k-1..2^k+1 (k=9..17), 1000, 5000, 50000, 100003 (thorough: ~2^20, 3000001) gets one structured six-phase history with every step checked against an ordered multiset of slot minima, and m in {1,2,3,5,8} gets 70000 (updates, reset) cycles. The six-phase history is repeated for m in {1,2,3,8,17,64} with a trace-level logger installed.",
+ "C17": "Long runs under one patterned script: >= 70000 draws without reset and >= 66000 (draws, reset, m draws compared with a fresh instance) cycles for m in {1,2,3,5,255,256,257}; two full blocks for m in {65535,65536,65537,100003}. Fresh instances of 2^20+1, 2^20+3, 3000001 and 1048579 elements are probed; the scripts for m <= 5 are repeated with a trace-level logger installed.",
  "C18": "Vector lengths 255..257 and 65535..65537 are included; strings also cover all sequences of <= 3 of 13 characters a normalising conversion would touch (byte order mark, zero-width / no-break space, line ends, combining accent, case, U+FFFD, U+10FFFF).",
- "C20": "Dump histories in one directory: all ordered pairs over a 288-tuple neighbour alphabet (fields a few ulp or a tiny absolute amount apart) that differ in one field, a fifth (all) of the others, all triples over 8 values of a; the reload returns the last tuple dumped.",
+ "C19": "Values that are structured at one of the 8 stage boundaries inside the 64-bit mix (small values, complements, a<<s, 2^k+-d, <= 3 bits; 1.9e7 quick) are mapped to inputs and to hash values through a re-implementation of the stages that only generates candidates - the oracle stays the round trip on the real functions; 2^16 values are repeated with a trace-level logger installed.",
+ "C20": "Dump histories in one directory: all ordered pairs over a 288-tuple neighbour alphabet (fields a few ulp or a tiny absolute amount apart) that differ in one field, a fifth (all) of the others, all triples over 8 values of a; the reload returns the last tuple dumped. The crash points and round trips of 6 tuples are repeated with a trace-level logger installed.",
 }
 for _k, _v in EXTRA.items():
     _t = list(CHECKS[_k]); _t[2] = _t[2] + " " + _v; CHECKS[_k] = tuple(_t)
